@@ -251,6 +251,27 @@ func gridOps(proto string, thorough bool) []wire.Op {
 				wire.Op{Kind: "mget", Keys: []string{k, k2, k}, Quiet: []bool{false, false, false}})
 		}
 	}
+	// long multi-key gets: text lines and binary batches that cross the 4096-byte bufio buffer,
+	// 8192 and 65536
+	for _, shape := range [][2]int{{17, 250}, {20, 250}, {33, 250}, {100, 40}, {103, 39}, {300, 250}, {1000, 7}} {
+		n, kl := shape[0], shape[1]
+		var keys []string
+		var quiet []bool
+		for i := 0; i < n; i++ {
+			k := []byte(keyOf(kl, false))
+			copy(k, fmt.Sprintf("%04d", i))
+			keys = append(keys, string(k))
+			quiet = append(quiet, bin && i < n-1)
+		}
+		out = append(out, wire.Op{Kind: "mget", Keys: keys, Quiet: quiet, Opaque: 0x5000})
+		if bin {
+			q2 := make([]bool, n)
+			for i := range q2 {
+				q2[i] = true
+			}
+			out = append(out, wire.Op{Kind: "mget", Keys: keys, Quiet: q2, NoopEnd: true, Opaque: 0x9000})
+		}
+	}
 	for _, v := range u32s {
 		out = append(out, wire.Op{Kind: "noop", Opaque: v}, wire.Op{Kind: "version", Opaque: v}, wire.Op{Kind: "stat", Opaque: v}, wire.Op{Kind: "quit", Opaque: v})
 		if bin {
